@@ -7,6 +7,9 @@
    that interpreting the committed term (Model.DecAst) is the hand-written decoder of Model.Responses that the C05 / C12
    theorems are about.
 
+   The readers themselves (read_short_*, read_int_string, relative_unpack: primitives here, with the semantics of
+   Model.Prim) have their own source translated into the reader language Model.ReadDSL (Proofs/ReadDSLSound.v).
+
    Python forms covered (anything else makes the translator refuse the decoder):
      ((a, b), cur) = relative_unpack(">ih", data, CUR)        SUnpack      CUR is the literal 0 (CStart) or `cur` (CCur)
      x, cur = relative_unpack(">i", data, cur)                SUnpackTuple (x is the whole tuple)
